@@ -259,7 +259,8 @@ class Run:
         # Node(): SequenceGenerator(state_id) -> randint(1, 0xfffff); SessionGenerator -> getrandbits(64)
         sim.script_random([cfg["e2e_rand"], 12345])
         N = sim.node_mod
-        node = N.Node(cfg["host"], cfg["realm"], ip_addresses=["10.0.0.1"], tcp_port=3868)
+        # (cfg["ips"] > 1: the node listens on several local addresses; connections are made to the first)
+        node = N.Node(cfg["host"], cfg["realm"], ip_addresses=["10.0.0.%d" % (k + 1) for k in range(cfg.get("ips", 1))], tcp_port=3868)
         node.cea_timeout, node.cer_timeout = cfg["cea"], cfg["cer"]
         node.dwa_timeout, node.idle_timeout = cfg["dwa"], cfg["idle"]
         node.wakeup_interval = cfg["wakeup"]
